@@ -515,6 +515,69 @@ theorem eachRemove_keeps (w : Width) (r : S) (rm : Nat → Bool) {y : Nat} (hy :
   · exact loop32_keeps rm hy _ _ _ h
   · exact loop64_keeps rm hy _ _ _ h
 
+/-! ### the model refines the spec, call by call -/
+
+theorem nativeOp_eq_binop (op : BinOp) : nativeOp op = Spec.binop op := by cases op <;> rfl
+
+theorem sorted_binop {op : BinOp} {a b : S} (ha : Sorted a) (hb : Sorted b) : Sorted (Spec.binop op a b) := by
+  cases op
+  · exact sorted_union ha hb
+  · exact sorted_inter ha
+  · exact sorted_diff ha
+  · exact sorted_symm ha hb
+
+theorem fallbackOp_fixed_eq {w : Width} {op : BinOp} {r o : S} (hr : Sorted r) (ho : Sorted o) :
+    fallbackOp true w op r o = Spec.binop op r o := by
+  cases op
+  · exact orFallback_eq hr ho
+  · exact andFallbackFixed_eq hr ho
+  · exact andNotFallbackFixed_eq hr ho
+  · exact xorFallback_eq ho
+
+/-- one call of the live model (F1 repair, snapshot protocol) on a provider with a free mutex and canonical content: it
+returns, with the spec's answer and the spec's content, and the provider stays in that shape -/
+theorem Spec.step_refines (p : Prov) (hl : p.locked = false) (hs : Sorted p.set) (op : Spec.SeqOp) (hok : op.Ok p.wrapped) :
+    ∃ p' r, p.step true true op = (p', some r) ∧ r = Spec.answer p.set (op.spec p) ∧ p'.set = Spec.next p.set (op.spec p) ∧
+      p'.locked = false ∧ p'.wrapped = p.wrapped ∧ Sorted p'.set := by
+  have hg : (p.wrapped && p.locked) = false := by simp [hl]
+  cases op with
+  | add vs => exact ⟨{ p with set := addMany p.set vs }, .unit, by simp [Prov.step, Prov.update, Prov.guard, hg, Spec.resOut], rfl, rfl, hl, rfl, sorted_foldl_ins hs⟩
+  | remove v => exact ⟨{ p with set := del v p.set }, .unit, by simp [Prov.step, Prov.update, Prov.guard, hg, Spec.resOut], rfl, rfl, hl, rfl, sorted_del hs⟩
+  | clear => exact ⟨{ p with set := [] }, .unit, by simp [Prov.step, Prov.update, Prov.guard, hg, Spec.resOut], rfl, rfl, hl, rfl, sorted_nil⟩
+  | checkedAdd v => exact ⟨{ p with set := ins v p.set }, .bool (!has p.set v), by simp [Prov.step, Prov.checkedAdd, Prov.guard, hg], rfl, rfl, hl, rfl, sorted_ins hs⟩
+  | contains v => exact ⟨p, _, by simp [Prov.step, Prov.guard, hg]; rfl, rfl, rfl, hl, rfl, hs⟩
+  | card => exact ⟨p, _, by simp [Prov.step, Prov.guard, hg]; rfl, rfl, rfl, hl, rfl, hs⟩
+  | slice => exact ⟨p, _, by simp [Prov.step, Prov.guard, hg]; rfl, rfl, rfl, hl, rfl, hs⟩
+  | each k => exact ⟨p, _, by simp [Prov.step, Prov.guard, hg]; rfl, rfl, rfl, hl, rfl, hs⟩
+  | clone => exact ⟨p, _, by simp [Prov.step, Prov.clone, Prov.guard, hg]; rfl, rfl, rfl, hl, rfl, hs⟩
+  | bin b o =>
+    cases o with
+    | bitmap s =>
+      have hso : Sorted s := hok
+      refine ⟨{ p with set := Spec.binop b p.set s }, .unit, ?_, rfl, rfl, hl, rfl, sorted_binop hs hso⟩
+      cases hw : p.wrapped <;>
+        simp [Prov.step, Prov.binop, hw, hl, snapshotOperand, bitmapBinop, nativeOp_eq_binop, Spec.resOut]
+    | wrapper l s =>
+      obtain ⟨rfl, hso⟩ := hok
+      refine ⟨{ p with set := Spec.binop b p.set s }, .unit, ?_, rfl, rfl, hl, rfl, sorted_binop hs hso⟩
+      cases hw : p.wrapped <;>
+        simp [Prov.step, Prov.binop, hw, hl, snapshotOperand, bitmapBinop, nativeOp_eq_binop, fallbackOp_fixed_eq hs hso, Spec.resOut]
+    | selfWrapper =>
+      have hw : p.wrapped = true := hok
+      refine ⟨{ p with set := Spec.binop b p.set p.set }, .unit, ?_, rfl, rfl, hl, rfl, sorted_binop hs hs⟩
+      simp [Prov.step, Prov.binop, hw, hl, snapshotOperand, bitmapBinop, nativeOp_eq_binop, Spec.resOut]
+    | nonDuplex => exact hok.elim
+
+theorem Spec.accepted_of_ok : ∀ (ops : List Spec.SeqOp) (p : Prov), p.locked = false → Sorted p.set →
+    (∀ op ∈ ops, op.Ok p.wrapped) → Prov.accepted true true p ops = true
+  | [], _, _, _, _ => rfl
+  | op :: ops, p, hl, hs, hok => by
+    obtain ⟨p', r, hstep, hr, hset, hl', hw', hs'⟩ := Spec.step_refines p hl hs op (hok op List.mem_cons_self)
+    unfold Prov.accepted
+    rw [hstep]
+    simp only [hr, hset, decide_true, Bool.true_and]
+    exact Spec.accepted_of_ok ops p' hl' hs' (fun o ho => hw' ▸ hok o (List.mem_cons_of_mem _ ho))
+
 /-! ### commutative.go -/
 
 theorem commContains_iff {dc : List S} {v : Nat} : commContains dc v = true ↔ ∃ d ∈ dc, v ∈ d := by
